@@ -47,6 +47,11 @@ func (m *MapCodec) Read(r *ReadBuf, p unsafe.Pointer) error {
 
 			// TODO: can we just reuse one val?
 			val := m.valueCodec.New(r)
+			if val == nil {
+				// Codecs with nothing to decode (null) have nothing to allocate
+				// either, but mapassign still needs a value to copy.
+				val = unsafe_New(unpackEFace(m.rtype.Elem()).data)
+			}
 			if err := m.valueCodec.Read(r, val); err != nil {
 				return fmt.Errorf("failed to read value for map key %s. %w", key, err)
 			}
